@@ -263,6 +263,7 @@ pub fn run_case(ctx: &Ctx, case: &Case) -> Outcome {
         eprintln!("  primary now: {:?}\n  trace tail: {:?}", primary_now, c.trace_tail(60));
     }
     let mut named: BTreeSet<(String, String)> = BTreeSet::new();
+    let mut created_in_stream: BTreeSet<String> = BTreeSet::new();
     let mut saw_sync_lines = false;
     if std::env::var("NV_C05_DEBUG").is_ok() {
         for i in 0..2 {
@@ -296,6 +297,11 @@ pub fn run_case(ctx: &Ctx, case: &Case) -> Outcome {
                     let (db, key, value) = (it.next().unwrap_or(""), it.next().unwrap_or(""), it.next().unwrap_or(""));
                     saw_sync_lines = true;
                     named.insert((db.to_string(), key.to_string()));
+                    // order of the stream: a key of a database that was created while the joiner was away is useless
+                    // before that database's create-db line (the joiner refuses it: "Not a valid database name")
+                    if db.get(1..).and_then(|x| x.parse::<usize>().ok()).map(|i| away_creates.contains(&i)).unwrap_or(false) && !created_in_stream.contains(db) {
+                        judge("C05|sync-stream-order|key-sent-before-the-create-db-of-its-database".to_string(), format!("the primary sent {:?} before any `create-db {}` in the same synchronisation stream (the database was created while the joiner was away)", line, db), &mut fail);
+                    }
                     let dbi: usize = db.get(1..).and_then(|x| x.parse().ok()).unwrap_or(99);
                     if !key.starts_with("$") {
                         match primary_now.get(db).and_then(|m| m.get(key)) {
@@ -317,6 +323,9 @@ pub fn run_case(ctx: &Ctx, case: &Case) -> Outcome {
                         }
                         other => judge("C05|sync-message-does-not-parse".to_string(), format!("{:?} -> {:?}", line, other), &mut fail),
                     }
+                }
+                if let Some(rest) = line.strip_prefix("create-db ") {
+                    created_in_stream.insert(rest.split(' ').next().unwrap_or("").to_string());
                 }
                 if line.starts_with("create-db ") {
                     full_sync = full_sync || false; // (a create-db line alone says nothing: incremental syncs replay create-db records too)
